@@ -103,7 +103,7 @@ def who_may_touch(ctx, rep, rule, class_qual, field, allowed, why):
     users = {}
     for q, f in ctx.repo.funcs.items():
         for n in A.walk(f.node):
-            if isinstance(n, ast.Attribute) and n.attr == field and isinstance(n.value, ast.Name):
+            if isinstance(n, ast.Attribute) and n.attr == field:      # (through `self`, an alias or `x.____conn__.<field>`)
                 top = f
                 while top.parent is not None:
                     top = top.parent
